@@ -369,3 +369,43 @@ impl VPruneBe {
         requires opts.early_delete_index && opts.instant_delete,
     { unimplemented!() }
 }
+
+// ---- copy_blobs: the copier's last pack and the writer's errors surface in finalize ----
+pub struct CopyFlush { pub flushed: Ghost<bool> }
+pub struct VBlobCopier { pub _opaque: u64 }
+pub struct VCopyBlobList { pub _opaque: u64 }
+pub struct PackerStatsC { pub _opaque: u64 }
+impl VBlobCopier {
+    // BlobCopier::finalize (Packer::finalize): writes the last, partially filled pack and joins the writer; an error of
+    // ANY pack write of this copier is returned here.  Ok is the only evidence that everything handed over is stored
+    #[verifier::external_body]
+    pub fn finalize(self, w: &mut CopyFlush) -> (r: RusticResult<PackerStatsC>)
+        ensures r is Ok ==> final(w).flushed@,
+    { unimplemented!() }
+}
+// blobs.into_par_iter().try_for_each(|blobs| copier.copy(blobs, &p)): hands every blob to the copier's packer (rayon)
+#[verifier::external_body]
+pub fn vcopy_all(blobs: VCopyBlobList, copier: &VBlobCopier, p: &ProgressR, w: &mut CopyFlush) -> (r: RusticResult<()>)
+    ensures final(w).flushed@ == old(w).flushed@,
+{ unimplemented!() }
+
+// ---- prune: end of the repack branch -- both repackers are finalized (their last packs written, errors reported) before
+//      the new index is finalized ----
+pub struct RepackFlush { pub done: Ghost<Set<int>>, pub index_written: Ghost<bool> }
+pub struct VRepacker { pub tag: Ghost<int> }
+impl VRepacker {
+    #[verifier::external_body]
+    pub fn finalize(self, w: &mut RepackFlush) -> (r: RusticResult<PackerStatsC>)
+        ensures r is Ok ==> final(w).done@ == old(w).done@.insert(self.tag@), r is Err ==> final(w).done@ == old(w).done@,
+            final(w).index_written@ == old(w).index_written@,
+    { unimplemented!() }
+}
+pub struct VRepackIndexer { pub _opaque: u64 }
+impl VRepackIndexer {
+    // Indexer::finalize of the rebuilt index.  PRECONDITION: every pack it must list is written (both repackers finalized Ok)
+    #[verifier::external_body]
+    pub fn vfinalize(&self, w: &mut RepackFlush) -> (r: RusticResult<()>)
+        requires old(w).done@.contains(1) && old(w).done@.contains(2),
+        ensures r is Ok ==> final(w).index_written@, final(w).done@ == old(w).done@,
+    { unimplemented!() }
+}
